@@ -2,7 +2,7 @@
    input, the five ranges are ordered and do not overlap, and they lie inside the input. *)
 From Coq Require Import List NArith Bool Arith Lia.
 Import ListNotations.
-Require Import V.Regex V.Abnf V.Parse V.ParseProofs V.Auth V.AuthProofs V.BridgePaths V.C02Bridge V.C02Proofs V.C03Bridge V.Utf8.
+Require Import V.Regex V.Abnf V.Parse V.ParseProofs V.Auth V.AuthProofs V.BridgePaths V.C02Bridge V.C02Proofs V.C03Bridge V.C03Embed V.Utf8.
 Local Open Scope nat_scope.
 
 Definition wfr (x : option range) : Prop := match x with Some (a, b) => a <= b | None => True end.
@@ -73,3 +73,22 @@ Print Assumptions C20_uri_authority_ranges.
 Theorem C20_iri_authority_ranges : forall s, L (iauthority I) s -> aordered (authority_parts s) (length s).
 Proof. intros s H. destruct (iri_authority_decomposition s H) as (a & _ & -> & E & _). rewrite E. apply aexpected_aordered. Qed.
 Print Assumptions C20_iri_authority_ranges.
+
+(* ... and for the authority EMBEDDED in any reference: the sub-ranges handed out by reference.authority().user_info() /
+   host() / port() are ordered, disjoint and inside the authority slice, itself a range of the reference (above) *)
+Theorem C20_embedded_authority_ranges_URI : forall s, L (IRI_reference U U) s ->
+  forall au, oslice s (r_authority (reference_parts s 0)) = Some au -> aordered (authority_parts au) (length au).
+Proof.
+  intros s H au Ea. destruct (embedded_uri s H) as (p & _ & (-> & E & _) & Hemb). rewrite E in Ea.
+  destruct (expected_slices p) as (_ & Sa & _). rewrite Sa in Ea.
+  destruct (Hemb au Ea) as (a & _ & -> & Ex & _). rewrite Ex. apply aexpected_aordered.
+Qed.
+Print Assumptions C20_embedded_authority_ranges_URI.
+Theorem C20_embedded_authority_ranges_IRI : forall s, L (IRI_reference I C02Bridge.P) s ->
+  forall au, oslice s (r_authority (reference_parts s 0)) = Some au -> aordered (authority_parts au) (length au).
+Proof.
+  intros s H au Ea. destruct (embedded_iri s H) as (p & _ & (-> & E & _) & Hemb). rewrite E in Ea.
+  destruct (expected_slices p) as (_ & Sa & _). rewrite Sa in Ea.
+  destruct (Hemb au Ea) as (a & _ & -> & Ex & _). rewrite Ex. apply aexpected_aordered.
+Qed.
+Print Assumptions C20_embedded_authority_ranges_IRI.
